@@ -98,6 +98,10 @@ func (r *Run) Violate(kind, key string, c interface{}, detail string) {
 }
 
 func (r *Run) Finish() {
+	for _, t := range bufferAliasing {
+		r.Violate("tree-aliases-the-input-buffer", "alias|"+truncate(t, 60), map[string]interface{}{"text": t}, "the tree returned by grammar.Parse changed when the caller overwrote the []byte it had passed")
+	}
+	bufferAliasing = nil
 	r.min.Flush()
 	r.ex.Flush()
 	r.de.Flush()
